@@ -43,6 +43,9 @@ func runC13(c *Ctx, pr *PropertyRun) {
 	c13Guards(c, pr, "C13", c.P.serverEntries())
 	c13ParseChecked(c, pr)
 	c13ReqErrors(c, pr)
+	// refusals of malformed headers and bodies before any backend call: the
+	// dispatch table shared with C01
+	c01Dispatch(c, pr, "C13")
 }
 
 func moduleOnly(p *Program) func(*ssa.Function) bool {
